@@ -192,12 +192,17 @@ def run(chk):
             chk.run("C12.R2", f"{P}:_get_vmap_in_axes_params", cfg, go, construct="vmap axes")
 
     # ---------------- R3
-    for pk in [(), ('nu',), ('th',), ('nu', 'th')]:
+    for pk, p_order, b_order in [((), EQ_KEYS, ()), (('nu',), EQ_KEYS, ('nu',)), (('th',), EQ_KEYS, ('th',)), (('nu', 'th'), EQ_KEYS, ('nu', 'th')),
+                                # the dictionaries are matched by key: insertion orders (of the parameters / of the batch) are immaterial
+                                (('nu', 'th'), EQ_KEYS, ('th', 'nu')), (('nu', 'th'), EQ_KEYS[::-1], ('nu', 'th')), (('th',), EQ_KEYS[::-1], ('th',))]:
         cfg = {"batched": list(pk)}
+        if tuple(p_order) != tuple(EQ_KEYS) or tuple(b_order) != tuple(pk):
+            cfg.update(eq_params_order=list(p_order), batch_order=list(b_order))
 
-        def go(pk=pk):
-            params = E.params({k: Pm(k) for k in EQ_KEYS})
-            bd = E.param_batch(pk)
+        def go(pk=pk, p_order=p_order, b_order=b_order):
+            params = E.params({k: Pm(k) for k in p_order})
+            bd0 = E.param_batch(pk)
+            bd = {k: bd0[k] for k in b_order}
             fr = freeze(params)
             r = up(fr, freeze(bd))
             if not isinstance(r, Inst) or r.cls is not params.cls:
@@ -212,6 +217,9 @@ def run(chk):
                 else:
                     if v.axes != () or v.deps():
                         raise Violation(k, repr(v), "the caller's value")
+                names = {a_[1] for e_ in v.entries() for a_ in e_.atoms() if a_[0] == 'P'}
+                if names != {k}:
+                    raise Violation(k, f"eq_params[{k!r}] holds the values of {sorted(names)}", f"the {'batch rows' if k in pk else 'value'} of {k!r} itself")
             for k in EQ_KEYS:
                 if to_at(fr.fields['eq_params'][k]).deps():
                     raise Violation("purity", "the caller's parameters were modified", "unchanged")
